@@ -9,11 +9,6 @@
 #include <netinet/in.h>
 #include "dns/rfc1035.h"      /* the rewritten copy in the build dir (class rfc1035_rr -> struct) */
 
-#ifndef N
-#define N 64                  /* datagram bound: buf is ANY byte string of sz <= N bytes */
-#endif
-#define NS RFC1035_MAXHOSTNAMESZ   /* 256: size of every name buffer the decoder writes into */
-
 /* functions of the real file that are file-static there (extraction drops `static` so that they can carry contracts) */
 int rfc1035NameUnpack(const char *buf, size_t sz, unsigned int *off, unsigned short *rdlength, char *name, size_t ns, int rdepth);
 int rfc1035RRUnpack(const char *buf, size_t sz, unsigned int *off, rfc1035_rr *RR);
@@ -22,31 +17,7 @@ int rfc1035NamePack(char *buf, size_t sz, const char *name);
 
 size_t g;                     /* ghost index: arbitrary; a statement about x[g] is a statement about every element */
 
-/* ---- wire-format reference (RFC 1035 4.1.1, 4.1.2, 4.1.3), written from the RFC ---- */
-static unsigned spec_be16(const char *p) { return ((unsigned)(unsigned char)p[0] << 8) | (unsigned char)p[1]; }
-static unsigned long spec_be32(const char *p)
-{ return ((unsigned long)spec_be16(p) << 16) | spec_be16(p + 2); }
-
-/* header fields of *h equal the 12 octets at b (ID, QR|Opcode|AA|TC|RD|RA|Z|RCODE, QDCOUNT, ANCOUNT, NSCOUNT, ARCOUNT) */
-static int spec_header_matches(const char *b, const rfc1035_message *h)
-{
-    unsigned f = spec_be16(b + 2);
-    return h->id == spec_be16(b) &&
-           h->qr == ((f >> 15) & 1) && h->opcode == ((f >> 11) & 15) && h->aa == ((f >> 10) & 1) &&
-           h->tc == ((f >> 9) & 1) && h->rd == ((f >> 8) & 1) && h->ra == ((f >> 7) & 1) && h->rcode == (f & 15) &&
-           h->qdcount == spec_be16(b + 4) && h->ancount == spec_be16(b + 6) &&
-           h->nscount == spec_be16(b + 8) && h->arcount == spec_be16(b + 10);
-}
-
-/* some byte of name[0,ns) is NUL */
-static int spec_terminated(const char *name, size_t ns)
-{
-    for (size_t k = 0; k < NS; k++) {
-        if (k >= ns) return 0;
-        if (name[k] == 0) return 1;
-    }
-    return 0;
-}
+#include "specs.h"            /* wire-format reference + the postcondition predicates shared with models.c */
 
 #ifndef CV_NATIVE
 
@@ -203,14 +174,13 @@ void h_nameunpack_term(void)
     char *name = malloc(ns); __CPROVER_assume(name != NULL);
     unsigned int off0 = off; unsigned short rdl0 = rdl;
     int r = rfc1035NameUnpack_real(buf, sz, &off, use_rdl ? &rdl : NULL, name, ns, rdepth);
-    __CPROVER_assert(r == 0 || r == 1, "ensures: returns 0 or 1");
+    __CPROVER_assert(spec_name_post(sz, off0, off, r, use_rdl, rdl0, rdl, ns) && (use_rdl || rdl == rdl0),
+                     "ensures: NameUnpack postcondition (0/1; on 0 *off advanced and <= sz; *rdlength grows by at most ns)");
 #ifdef TWIN_TERM
     __CPROVER_assert(!(r == 0) || !spec_terminated(name, ns), "ensures: TWIN (negated) name NUL-terminated");
 #else
     __CPROVER_assert(!(r == 0) || spec_terminated(name, ns), "ensures: on success name[0,ns) holds a NUL");
 #endif
-    __CPROVER_assert(!(r == 0) || (off <= sz && off > off0), "ensures: on success *off advanced and *off <= sz");
-    __CPROVER_assert(rdl >= rdl0 && (size_t)(rdl - rdl0) <= ns && (use_rdl || rdl == rdl0), "ensures: *rdlength grows by at most ns");
 #ifdef REACH
     __CPROVER_assert(!(r == 0 && name[0] == 0), "reach: root name accepted");
     __CPROVER_assert(!(r == 0 && name[0] != 0 && name[1] == '.' && (unsigned char)buf[off0] < 64), "reach: multi-label name accepted");
@@ -223,8 +193,9 @@ void h_nameunpack_term(void)
 
 /* =====================================================================================================================
  * rfc1035QueryUnpack, rfc1035RRUnpack, rfc1035MessageUnpack: harness-encoded contracts (RRUnpack/MessageUnpack allocate
- * symbolic-size blocks, which --dfcc does not finish).  rfc1035NameUnpack is replaced by its contract model.
- * buf is a heap block of EXACTLY sz bytes (1 <= sz <= N, contents arbitrary): any read outside buf[0,sz) fails a pointer check.
+ * symbolic-size blocks, which --dfcc does not finish).  Callees that have their own target are replaced by their contract
+ * model (models.c: requires asserted, frame havocked, the SAME spec_*_post predicate assumed).
+ * buf is a heap block of EXACTLY sz bytes (sz <= N, contents arbitrary): any read outside buf[0,sz) fails a pointer check.
  * ===================================================================================================================== */
 #if defined(T_QUERYUNPACK)
 void h_queryunpack(void)
@@ -234,17 +205,12 @@ void h_queryunpack(void)
     char *buf = malloc(sz); __CPROVER_assume(buf != NULL);
     unsigned int off0 = off;
     int r = rfc1035QueryUnpack(buf, sz, &off, &q);
-    __CPROVER_assert(r == 0 || r == 1, "ensures: returns 0 or 1");
 #ifdef TWIN_QUERY
-    __CPROVER_assert(!(r == 0) || !(off <= sz), "ensures: TWIN (negated) *off <= sz on success");
+    __CPROVER_assert(!spec_query_post(buf, sz, off0, off, r, &q, g), "ensures: TWIN (negated) QueryUnpack postcondition");
 #else
-    __CPROVER_assert(!(r == 0) || (off <= sz && off >= off0 + 5), "ensures: on success *off <= sz and at least 5 octets consumed");
+    __CPROVER_assert(spec_query_post(buf, sz, off0, off, r, &q, g),
+                     "ensures: 0 => *off <= sz, >= 5 octets consumed, QTYPE/QCLASS are the big-endian words after the name; 1 => query zeroed");
 #endif
-    __CPROVER_assert(!(r == 0) || (q.qtype == spec_be16(buf + off - 4) && q.qclass == spec_be16(buf + off - 2)),
-                     "ensures: on success QTYPE/QCLASS are the two big-endian words after the name");
-    __CPROVER_assert(!(r == 0) || spec_terminated(q.name, NS), "ensures: on success the name is NUL-terminated");
-    __CPROVER_assert(!(r == 1) || (q.name[0] == 0 && q.qtype == 0 && q.qclass == 0 && (g >= NS || q.name[g] == 0)),
-                     "ensures: on failure the query is all zero");
     free(buf);
 #ifdef REACH
     __CPROVER_assert(!(r == 0), "reach: question accepted");
@@ -263,27 +229,14 @@ void h_rrunpack(void)
     char *buf = malloc(sz); __CPROVER_assume(buf != NULL);
     unsigned int off0 = off;
     int r = rfc1035RRUnpack(buf, sz, &off, &RR);
-    __CPROVER_assert(r == 0 || r == 1, "ensures: returns 0 or 1");
 #ifdef TWIN_RR
-    __CPROVER_assert(!(r == 0) || !(off <= sz), "ensures: TWIN (negated) *off <= sz on success");
+    __CPROVER_assert(!spec_rr_post(buf, sz, off0, off, r, &RR, g), "ensures: TWIN (negated) RRUnpack postcondition");
 #else
-    __CPROVER_assert(!(r == 0) || (off <= sz && off >= off0 + 11), "ensures: on success *off <= sz and at least 11 octets consumed");
+    __CPROVER_assert(spec_rr_post(buf, sz, off0, off, r, &RR, g),
+                     "ensures: 0 => *off <= sz, >= 11 octets consumed, rdata block sized to the copied RDATA (PTR: 256) and equal to it; 1 => RR zeroed");
 #endif
-    __CPROVER_assert(!(r == 0) || spec_terminated(RR.name, NS), "ensures: on success the owner name is NUL-terminated");
-    __CPROVER_assert(!(r == 0) || (RR.rdata != NULL && __CPROVER_POINTER_OFFSET(RR.rdata) == 0 &&
-                                   __CPROVER_OBJECT_SIZE(RR.rdata) >= RR.rdlength),
-                     "ensures: on success rdata is a heap block of at least rdlength bytes");
-    __CPROVER_assert(!(r == 0 && RR.type != RFC1035_TYPE_PTR) || __CPROVER_OBJECT_SIZE(RR.rdata) == RR.rdlength,
-                     "ensures: non-PTR: the rdata block is exactly the copied length");
-    __CPROVER_assert(!(r == 0 && RR.type != RFC1035_TYPE_PTR && g < RR.rdlength) || RR.rdata[g] == buf[off - RR.rdlength + g],
-                     "ensures: non-PTR: rdata is the RDATA octets of the datagram (ghost index)");
-    __CPROVER_assert(!(r == 0 && RR.type == RFC1035_TYPE_PTR) ||
-                     (__CPROVER_OBJECT_SIZE(RR.rdata) == NS && spec_terminated(RR.rdata, NS)),
-                     "ensures: PTR: rdata is a 256-byte block holding a NUL-terminated name");
-    __CPROVER_assert(!(r == 1) || (RR.rdata == NULL && RR.name[0] == 0 && RR.type == 0 && RR.rdlength == 0),
-                     "ensures: on failure the record is all zero (nothing left to free)");
     if (r == 0)
-        free(RR.rdata);       /* with --memory-leak-check: nothing else was allocated and kept */
+        free(RR.rdata);       /* with --memory-leak-check: nothing else was allocated and kept (error paths free rdata) */
     free(buf);
 #ifdef REACH
     __CPROVER_assert(!(r == 0 && RR.type == RFC1035_TYPE_A && RR.rdlength == 4), "reach: A record accepted");
@@ -296,9 +249,6 @@ void h_rrunpack(void)
 #endif
 
 #if defined(T_MESSAGE)
-#ifndef KMAX
-#define KMAX (N / 11 + 1)
-#endif
 void h_message(void)
 {
     size_t sz;
@@ -315,18 +265,16 @@ void h_message(void)
                      "ensures: n > 0 => message returned with an answer array of ancount >= n records");
 #endif
     __CPROVER_assert(!(n > 0 && g < (size_t)n) ||
-                     (ans->answer[g].rdata != NULL && __CPROVER_OBJECT_SIZE(ans->answer[g].rdata) >= ans->answer[g].rdlength &&
-                      spec_terminated(ans->answer[g].name, NS)),
-                     "ensures: each of the n records has a terminated name and an rdata block of at least rdlength bytes (ghost index)");
+                     (ans->answer[g].rdata != NULL && __CPROVER_OBJECT_SIZE(ans->answer[g].rdata) >= ans->answer[g].rdlength),
+                     "ensures: each of the n records has an rdata block of at least rdlength bytes (ghost index)");
     __CPROVER_assert(!(n > 0 && g >= (size_t)n && g < ans->ancount) || ans->answer[g].rdata == NULL,
                      "ensures: records beyond n hold no rdata (ghost index)");
     __CPROVER_assert(!(n == 0) || (ans != NULL && ans->ancount == 0 && ans->rcode == 0 && ans->answer == NULL),
                      "ensures: 0 => a message without answers");
     __CPROVER_assert(!(n < 0) || ans == NULL || (n == -(int)ans->rcode && ans->rcode != 0 && ans->answer == NULL),
                      "ensures: error => no message, or the server's RCODE with the message (no answer array)");
-    __CPROVER_assert(ans == NULL || (spec_header_matches(buf, ans) && ans->qdcount == 1 && ans->query != NULL &&
-                                     spec_terminated(ans->query[0].name, NS)),
-                     "ensures: a returned message carries the datagram's header and one terminated question");
+    __CPROVER_assert(ans == NULL || (spec_header_matches(buf, ans) && ans->qdcount == 1 && ans->query != NULL),
+                     "ensures: a returned message carries the datagram's header and one question");
     _Bool had = ans != NULL;
     rfc1035MessageDestroy(&ans);                   /* the caller's duty; afterwards --memory-leak-check: nothing is left */
     __CPROVER_assert(ans == NULL, "ensures: MessageDestroy clears the pointer");
@@ -334,11 +282,36 @@ void h_message(void)
 #ifdef REACH
     __CPROVER_assert(!(n == 1), "reach: one record");
     __CPROVER_assert(!(n == 2), "reach: two records");
-    __CPROVER_assert(!(n == 1 && ans == NULL && sz == N), "reach: full-size datagram accepted");
+    __CPROVER_assert(!(n == 1 && sz == N), "reach: full-size datagram accepted");
     __CPROVER_assert(!(n == 0), "reach: no answers");
     __CPROVER_assert(!(n == -3 && had), "reach: NXDOMAIN returned with the message");
     __CPROVER_assert(!(n == -15 && !had && sz >= 12 + 5 + 11), "reach: corrupt first record => everything freed, no message");
     __CPROVER_assert(!(n == -15 && sz == 0), "reach: empty datagram");
+#endif
+}
+#endif
+
+/* ---------- the REAL rfc1035RRDestroy (message_safe uses a model of it): frees every rdata and the array ---------- */
+#if defined(T_RRDESTROY)
+void h_rrdestroy(void)
+{
+    int n; unsigned cnt;
+    __CPROVER_assume(cnt >= 1 && cnt <= KD);
+    __CPROVER_assume(n >= -1 && n <= (int)cnt);
+    rfc1035_rr *rr = calloc(cnt, sizeof(*rr)); __CPROVER_assume(rr != NULL);
+    for (unsigned k = 0; k < KD; k++) {
+        _Bool has;
+        if (k < cnt && k < (unsigned)(n < 0 ? 0 : n) && has) { rr[k].rdata = malloc(1); __CPROVER_assume(rr[k].rdata != NULL); }
+    }
+    _Bool none;
+    rfc1035_rr *p = none ? NULL : rr;
+    rfc1035RRDestroy(&p, n);
+    __CPROVER_assert(p == NULL, "ensures: *rr cleared");
+    if (none) free(rr);
+    /* --memory-leak-check: every rdata block and the array were freed exactly once (double free = free precondition) */
+#ifdef REACH
+    __CPROVER_assert(!(n == KD && rr[0].rdata != NULL), "reach: full array with rdata");
+    __CPROVER_assert(!(none), "reach: NULL array");
 #endif
 }
 #endif
